@@ -31,10 +31,23 @@ type state struct {
 
 var cur atomic.Pointer[state]
 
+var hooks atomic.Pointer[map[string]func()]
+
+// SetHooks installs callbacks run (synchronously) whenever the named sites are hit. A plan
+// (possibly empty) must be installed for hooks to fire.
+func SetHooks(h map[string]func()) {
+	if h == nil {
+		hooks.Store(nil)
+		return
+	}
+	hooks.Store(&h)
+}
+
 // Install activates a plan (nil deactivates).
 func Install(p Plan) {
 	if p == nil {
 		cur.Store(nil)
+		hooks.Store(nil)
 		return
 	}
 	_, all := p["*"]
@@ -61,6 +74,11 @@ func P(site string) {
 	s := cur.Load()
 	if s == nil {
 		return
+	}
+	if h := hooks.Load(); h != nil {
+		if f, ok := (*h)[site]; ok {
+			f()
+		}
 	}
 	sp, ok := s.plan[site]
 	if !ok && !s.all {
